@@ -10,6 +10,7 @@ package dposw
 import (
 	"bytes"
 	"context"
+	"crypto/sha256"
 	"fmt"
 	"math/big"
 	"os"
@@ -27,6 +28,7 @@ import (
 	"github.com/aergoio/aergo/v2/zz_verif/simclock"
 	"github.com/aergoio/aergo/v2/zz_verif/simkit"
 	"github.com/aergoio/aergo/v2/zz_verif/simnode"
+	"github.com/libp2p/go-libp2p/core/crypto"
 )
 
 type World struct{ Scratch string }
@@ -296,6 +298,9 @@ func (w *World) Run(x *simkit.Ctx) {
 	}
 	if !x.Failed() {
 		e.livenessPhase()
+	}
+	if !x.Failed() && prop == "C09" {
+		e.clusterScan()
 	}
 	x.Out.SimMs = e.now.Sub(net.Start).Milliseconds()
 }
@@ -1064,6 +1069,76 @@ func (e *env) livenessPhase() {
 		}
 	}
 	x.Probe("liveness-phase-passed")
+}
+
+// clusterScan (C09, reduced world, run last because it rewrites node 0's producer set): the
+// producer set is replaced several times by generated lists (members dropped, added, reordered),
+// as an election does; after each replacement the real consensus-level block check
+// (DPoS.IsBlockValid: key in the current set and its index owns the timestamp's slot) is compared
+// with the specification for blocks signed by every key that was ever a member or never was.
+func (e *env) clusterScan() {
+	x := e.x
+	n := e.nodes[0]
+	seed := x.CfgInt("cluster.seed", func(r *simkit.Rng) int { return int(r.U64() >> 34) })
+	r := simkit.NewRng(uint64(seed))
+	type ident struct {
+		key crypto.PrivKey
+		id  types.PeerID
+		b58 string
+	}
+	var pool []ident
+	for i := 0; i < 7; i++ {
+		sd := sha256.Sum256([]byte(fmt.Sprintf("cluster-scan-%d-%d", seed, i)))
+		k, err := crypto.UnmarshalSecp256k1PrivateKey(sd[:])
+		if err != nil {
+			panic(err)
+		}
+		id, _ := types.IDFromPublicKey(k.GetPublic())
+		pool = append(pool, ident{k, id, types.IDB58Encode(id)})
+	}
+	for i, k := range e.net.BPKeys {
+		pool = append(pool, ident{k, e.net.BPIDs[i], types.IDB58Encode(e.net.BPIDs[i])})
+	}
+	im := int64(e.intv) * 1000
+	baseMs := e.now.UnixNano()/1000000/im*im + 1
+	var failure string
+	n.Do(func() {
+		c := n.DP.VerifCluster()
+		for round := 0; round < 5 && failure == ""; round++ {
+			size := 1 + r.Intn(6)
+			perm := r.Perm(len(pool))
+			var list []string
+			pos := map[types.PeerID]int{}
+			for i := 0; i < size; i++ {
+				list = append(list, pool[perm[i]].b58)
+				pos[pool[perm[i]].id] = i
+			}
+			if err := c.Update(list); err != nil {
+				panic(err)
+			}
+			for _, p := range pool {
+				for k := 0; k < 2*size+1 && failure == ""; k++ {
+					ms := baseMs + int64(k)*im + int64(r.Intn(int(im)))
+					blk := &types.Block{Header: &types.BlockHeader{Timestamp: ms * 1000000, BlockNo: 1}}
+					if err := blk.Sign(p.key); err != nil {
+						panic(err)
+					}
+					got := n.DP.IsBlockValid(blk, nil) == nil
+					idx, member := pos[p.id]
+					_, owner := ownerIndex(ms*1000000, im, size)
+					want := member && owner == idx
+					if got != want {
+						failure = fmt.Sprintf("after %d replacements of the producer set (size %d): a block of a key that is member=%v (index %d) with a timestamp in a slot of index %d is judged valid=%v", round+1, size, member, idx, owner, got)
+					}
+				}
+			}
+		}
+	})
+	if failure != "" {
+		x.Fail("C09", "producer-set-change-misjudged", "cluster-scan", failure, len(x.Case.Steps))
+		return
+	}
+	x.Probe("cluster-scan-passed")
 }
 
 // slotScan (C09, reduced world without execution): for generated producer-set sizes 1..100 and
